@@ -17,6 +17,9 @@ CQ_MOUNTS = [
 FETCH = r"CQueue::<.*>::fetch_next"
 
 
+REALLOC = (r"realloc_words", None, 34)
+
+
 def DISPATCH(k):
     """bound for the `while !self.dispatch_event() {}` loop of Runtime::dispatch_all"""
     return (r"Runtime::<.*>::dispatch_all", None, k)
@@ -49,7 +52,7 @@ CQ_STUBS = [
 PROPS = {}
 
 # properties whose checks are registered in MANIFEST.json (measured below the tier caps)
-REGISTERED = ["C01", "C03"]
+REGISTERED = ["C01", "C02", "C03", "C10", "C11", "C15", "C16"]
 
 NOT_APPLICABLE = [
     dict(property_id="C04", reason="2-run hyperproperty over the whole runtime incl. tokio scheduler, rand ChaCha (cpuid inline asm) and process-global counters; no kernel function decides it and whole-run encodings do not fit CBMC (a 2-event run is already >100k SSA steps)"),
@@ -128,6 +131,7 @@ MRT = "runtime::verif_rt"
 
 PROPS["C02"] = dict(
     crate="des", mounts=RT_MOUNTS, prepend=CQ_PREPEND, functions=RT_FUNCS,
+    level_text="Bounded model checking of the real Runtime (cqueue back end): for all symbolic timestamps/delays in range the handler observes SimTime::now() == scheduled timestamp, events run once in non-decreasing time order, the clock never decreases; scheduling before the current simulated time leaves through the queue's panic for every start time <= 4 ns (real Builder::start_time/build) and after a dispatch, and scheduling at/after it succeeds; the clock kernel set_now/now is exact for full-width u64 s x u32 ns and one dispatch is exact for a full-width timestamp. Bounds: <= 2 events per run, one follow-up per handler, timestamps <= 6 ns (except the full-width kernels).",
     claim="Handlers log SimTime::now(); oracle = logged time equals scheduled time, non-decreasing, each event once; past-time scheduling must leave through the queue's panic (sentinel assertion after the call must be unreachable).",
     assumptions=RT_STUBS + ["timestamps < 1 s", "<= 2 events per run, handler schedules <= 1 follow-up"],
     outside=["BinaryHeap back end", "more than 2 events per harness", "handlers scheduling more than one follow-up", "start banner / profiler output"],
@@ -136,7 +140,8 @@ PROPS["C02"] = dict(
         H(MRT, "c02_dispatch_fullwidth", fetch=2, bounds="n=1, bucket width 2^63 s; one event at a full-width symbolic time < 2^63 s; one dispatch"),
         H(MRT, "c02_clock_n1t2", fetch=4, bounds="n=1,t=2ns; event at t1<=3 spawning follow-up at delay d<=2 (0 allowed); 3 dispatch_event calls"),
         H(MRT, "c02_clock_n2t1", fetch=7, bounds="n=2,t=1ns; t1<=3, d<=2; 3 dispatch_event calls", tier="thorough"),
-        H(MRT, "c02_two_n1t2", fetch=3, unwindset=[DISPATCH(4)], bounds="n=1,t=2ns; two pre-scheduled events at symbolic times<=3; dispatch_all"),
+        H(MRT, "c02_two_n1t8", fetch=2, unwindset=[DISPATCH(4)], bounds="n=1,t=8ns (one window); two pre-scheduled events at symbolic times<=3; dispatch_all"),
+        H(MRT, "c02_two_n1t2", fetch=3, unwindset=[DISPATCH(4)], tier="thorough", bounds="n=1,t=2ns; two pre-scheduled events at symbolic times<=3; dispatch_all"),
         H(MRT, "c02_two_n2t2", fetch=4, unwindset=[DISPATCH(4)], mem=16, bounds="n=2,t=2ns; two pre-scheduled events, times<=5; dispatch_all", tier="thorough"),
         H(MRT, "c02_past_start_time", bounds="real Builder::start_time(s).build(), s<=4, add_event(t<s) must panic",
           expect_fail=["Cannot add past event to calender queue"], must_fail=["Cannot add past event to calender queue"]),
@@ -148,41 +153,49 @@ PROPS["C02"] = dict(
 
 PROPS["C10"] = dict(
     crate="des", mounts=RT_MOUNTS, prepend=CQ_PREPEND, functions=RT_FUNCS,
+    level_text="Bounded model checking of the real Runtime: a 3-event program with symbolic timestamps (ties allowed, incl. a three-way tie at one instant) is cut by dispatch_n_events(k) and resumed; the solver shows for all timestamps that exactly k events ran, the remaining count and reported time are as specified and the resumed run executes the same events in the same order at the same times as the uninterrupted run (whose order is the C03 rule computed in the harness); while paused, add_event(x) for every x >= sim_time() is accepted and ordered correctly; dispatch_events_until(t) dispatches exactly the events <= t and the configured limit is restored. Bounds: 3 events, one cut, timestamps <= 4 ns.",
     claim="Run A (uninterrupted) is the harness oracle: expected order = stable sort of the symbolic timestamps (C03 rule); run B (cut by dispatch_n_events / dispatch_events_until, then dispatch_all) is compared event by event.",
     assumptions=RT_STUBS + ["timestamps < 1 s", "3 events per run, cut after k in {1,2}"],
     outside=["BinaryHeap back end", "more than 3 events, several cuts per run", "handlers that schedule follow-ups across a cut"],
     harnesses=[
-        H(MRT, "c10_cut1_same_instant_n1t2", fetch=3, unwindset=[DISPATCH(3)], mem=16, bounds="n=1,t=2ns; three events at one symbolic instant a<=3; dispatch_n_events(1) then 3 dispatch_event calls; dispatch_all loop unwound 3"),
-        H(MRT, "c10_cut2_same_instant_n1t2", fetch=3, unwindset=[DISPATCH(4)], mem=16, bounds="same, dispatch_n_events(2); dispatch_all loop unwound 4", tier="thorough"),
-        H(MRT, "c10_cut1_n1t2", fetch=3, unwindset=[DISPATCH(3)], mem=16, bounds="n=1,t=2ns; three events at symbolic times a<=b<=c<=3 (ties allowed); dispatch_n_events(1) then dispatch_event calls"),
+        H(MRT, "c10_cut1_same_instant_n1t8", fetch=2, unwindset=[DISPATCH(3)], mem=12, bounds="n=1,t=8ns (one window); three events at one symbolic instant a<=3; dispatch_n_events(1) then 3 dispatch_event calls"),
+        H(MRT, "c10_cut1_n1t8", fetch=2, unwindset=[DISPATCH(3)], mem=12, bounds="n=1,t=8ns; three events a<=b<=c<=3 (ties allowed); dispatch_n_events(1) then dispatch_event calls"),
+        H(MRT, "c10_cut2_n1t8", fetch=2, unwindset=[DISPATCH(4)], mem=12, tier="thorough", bounds="n=1,t=8ns; three events a<=b<=c<=3; dispatch_n_events(2) then dispatch_event calls"),
+        H(MRT, "c10_paused_add_n1t8", fetch=2, unwindset=[DISPATCH(3)], mem=12, bounds="n=1,t=8ns; events a<=b<=3; dispatch_n_events(1); add_event(x in a..=4); one dispatch_event"),
+        H(MRT, "c10_until1_n1t8", fetch=2, unwindset=[DISPATCH(3)], bounds="n=1,t=8ns; one event at a<=3; dispatch_n_events(0); dispatch_events_until(T'<=3)"),
+        H(MRT, "c10_until_n1t8", fetch=2, unwindset=[DISPATCH(4)], mem=18, tier="thorough", bounds="n=1,t=8ns; two events times<=3; dispatch_events_until(T'<=3) then dispatch_all"),
+        H(MRT, "c10_cut1_same_instant_n1t2", fetch=3, unwindset=[DISPATCH(3)], mem=16, tier="thorough", bounds="n=1,t=2ns; three events at one symbolic instant a<=3; dispatch_n_events(1)"),
+        H(MRT, "c10_cut2_same_instant_n1t2", fetch=3, unwindset=[DISPATCH(4)], mem=16, bounds="same, dispatch_n_events(2)", tier="thorough"),
+        H(MRT, "c10_cut1_n1t2", fetch=3, unwindset=[DISPATCH(3)], mem=16, tier="thorough", bounds="n=1,t=2ns; three events a<=b<=c<=3; dispatch_n_events(1)"),
         H(MRT, "c10_cut2_n1t2", fetch=3, unwindset=[DISPATCH(4)], mem=16, bounds="same, dispatch_n_events(2)", tier="thorough"),
         H(MRT, "c10_cut1_n2t1", fetch=5, unwindset=[DISPATCH(3)], mem=20, bounds="n=2,t=1ns; three events a<=b<=c<=3; dispatch_n_events(1)", tier="thorough"),
-        H(MRT, "c10_paused_add_n1t2", fetch=3, unwindset=[DISPATCH(4)], mem=14, bounds="n=1,t=2ns; events a<=b<=3; dispatch_n_events(1); add_event(x in a..=4); dispatch_all"),
-        H(MRT, "c10_until_n1t2", fetch=3, unwindset=[DISPATCH(4)], mem=16, bounds="n=1,t=2ns; two events times<=3; dispatch_events_until(T'<=3) then dispatch_all"),
-        H(MRT, "c10_until_n2t1", fetch=5, unwindset=[DISPATCH(4)], mem=20, bounds="n=2,t=1ns; two events times<=3; dispatch_events_until(T'<=3)", tier="thorough"),
+        H(MRT, "c10_paused_add_n1t2", fetch=3, unwindset=[DISPATCH(3)], mem=20, tier="thorough", bounds="n=1,t=2ns; events a<=b<=3; dispatch_n_events(1); add_event(x in a..=4); one dispatch_event"),
+        H(MRT, "c10_until_n1t2", fetch=3, unwindset=[DISPATCH(4)], mem=20, tier="thorough", bounds="n=1,t=2ns; two events times<=3; dispatch_events_until(T'<=3) then dispatch_all"),
+        H(MRT, "c10_until_n2t1", fetch=5, unwindset=[DISPATCH(4)], mem=24, tier="thorough", bounds="n=2,t=1ns; two events times<=3; dispatch_events_until(T'<=3)"),
     ],
 )
 
 PROPS["C11"] = dict(
     crate="des", mounts=RT_MOUNTS + [dict(file="des/src/runtime/limit.rs", decl="mod verif_c11", harness="c11_limit.rs")],
     prepend=CQ_PREPEND, functions=RT_FUNCS + ["des::runtime::RuntimeLimit::{applies,add}"],
-    claim="Kernel: applies() equals the logical formula for full-width symbolic itr/time and symbolic tree shape (depth<=3). Run: limit of each shape {None, EventCount, SimTime, And, Or, Builder-composed Or} with symbolic parameters over two symbolic-time events; dispatched prefix, remaining events and end time compared with the specification computed in the harness.",
+    level_text="Kernel: RuntimeLimit::applies equals the logical formula for full-width symbolic itr/time/parameters and And/Or trees (depth 2 quick, symbolic shape depth 3 thorough); add() composes with Or. Step: one dispatch_event from an arbitrary point of a run (symbolic dispatched count <= 4, two pending events at symbolic times) under each limit shape stops iff the specification says so and otherwise handles exactly the earliest event without losing the other; finish() returns every undelivered event with its timestamp in time order, the exact event_count and the time of the last dispatched event. Whole-run prefix property follows by induction over steps (argument, not solver-checked).",
+    claim="Kernel: applies() equals the logical formula for full-width symbolic itr/time and symbolic tree shape (depth<=3). Step: ONE dispatch_event from an arbitrary point of a run (symbolic dispatched count, two pending events at symbolic times) under a limit of each shape {None, EventCount, SimTime, And, Or, Builder-composed Or} with symbolic parameters: it stops iff the specification says so, otherwise handles exactly the earliest event; finish() returns every undelivered event with its timestamp. By induction over steps a run dispatches exactly the longest admitted prefix (the induction itself is an argument, not solver-checked; the C10 cut harnesses exercise 3-event compositions).",
     assumptions=RT_STUBS + ["kernel harnesses use no stubs and full-width u64/u32/usize values"],
     outside=["limit trees deeper than 3", "more than 2 events in the bounded run", "BinaryHeap back end"],
     harnesses=[
         H("runtime::limit::verif_c11", "c11_applies_leaf_and_none", bounds="full-width itr, time, n, T; leaf kinds symbolic"),
         H("runtime::limit::verif_c11", "c11_applies_depth2", bounds="And/Or of two symbolic leaves, full-width values"),
-        H("runtime::limit::verif_c11", "c11_applies_depth3", bounds="symbolic shape: (a op b) op c / c op (a op b), ops symbolic, full-width values"),
-        H("runtime::limit::verif_c11", "c11_add_composes_or", bounds="None.add(a).add(b).add(c), full-width values"),
-        H(MRT, "c11_run2_none_n1t2", fetch=3, unwindset=[DISPATCH(4), FINISH(4)], mem=16, bounds="n=1,t=2ns; two events times<=3; limit None; dispatch_all + finish"),
-        H(MRT, "c11_run2_count_n1t2", fetch=3, unwindset=[DISPATCH(4), FINISH(4)], mem=16, bounds="n=1,t=2ns; two events times<=3; EventCount(n<=3 symbolic)"),
-        H(MRT, "c11_run2_time_n1t2", fetch=3, unwindset=[DISPATCH(4), FINISH(4)], mem=16, bounds="n=1,t=2ns; two events times<=3; SimTime(T<=4 symbolic)"),
-        H(MRT, "c11_run2_and_n1t2", fetch=3, unwindset=[DISPATCH(4), FINISH(4)], mem=16, bounds="n=1,t=2ns; two events; And(EventCount(n<=3), SimTime(T<=4))"),
-        H(MRT, "c11_run2_or_n1t2", fetch=3, unwindset=[DISPATCH(4), FINISH(4)], mem=16, bounds="n=1,t=2ns; two events; Or(EventCount(n<=3), SimTime(T<=4))"),
-        H(MRT, "c11_run2_builder_or_n1t2", fetch=3, unwindset=[DISPATCH(4), FINISH(4)], mem=16, bounds="n=1,t=2ns; two events; None.add(SimTime).add(EventCount) as Builder::max_time().max_itr() composes"),
-        H(MRT, "c11_run2_count_n2t1", fetch=5, unwindset=[DISPATCH(4), FINISH(4)], mem=16, bounds="n=2,t=1ns; two events times<=3; EventCount(n<=3)", tier="thorough"),
-        H(MRT, "c11_run2_time_n2t1", fetch=5, unwindset=[DISPATCH(4), FINISH(4)], mem=16, bounds="n=2,t=1ns; two events times<=3; SimTime(T<=4)", tier="thorough"),
-        H(MRT, "c11_run2_or_n2t1", fetch=5, unwindset=[DISPATCH(4), FINISH(4)], mem=16, bounds="n=2,t=1ns; two events; Or(EventCount, SimTime)", tier="thorough"),
+        H("runtime::limit::verif_c11", "c11_applies_depth3", tier="thorough", bounds="symbolic shape: (a op b) op c / c op (a op b), ops symbolic, full-width values"),
+        H("runtime::limit::verif_c11", "c11_add_composes_or", tier="thorough", bounds="None.add(a).add(b).add(c), full-width values"),
+        H(MRT, "c11_step_none_n1t8", fetch=2, bounds="n=1,t=8ns; itr<=4 symbolic, two pending events times<=3, limit None; ONE dispatch_event"),
+        H(MRT, "c11_step_count_n1t8", fetch=2, bounds="same, EventCount(n<=4 symbolic)"),
+        H(MRT, "c11_step_time_n1t8", fetch=2, bounds="same, SimTime(T<=4 symbolic)"),
+        H(MRT, "c11_step_and_n1t8", fetch=2, bounds="same, And(EventCount(n), SimTime(T))"),
+        H(MRT, "c11_step_or_n1t8", fetch=2, bounds="same, Or(EventCount(n), SimTime(T))"),
+        H(MRT, "c11_step_builder_or_n1t8", fetch=2, bounds="same, None.add(SimTime(T)).add(EventCount(n)) as Builder::max_time().max_itr() composes"),
+        H(MRT, "c11_finish_returns_remaining_n1t8", fetch=2, unwindset=[FINISH(4)], bounds="n=1,t=8ns; itr<=4, now<=2, two pending events at symbolic times in [now,3]; finish()"),
+        H(MRT, "c11_step_count_n2t1", fetch=5, tier="thorough", bounds="n=2,t=1ns; EventCount step"),
+        H(MRT, "c11_step_or_n2t1", fetch=5, tier="thorough", bounds="n=2,t=1ns; Or step"),
     ],
 )
 
@@ -246,3 +259,38 @@ PROPS["C15"] = dict(
         H(M15P, "c15_payload_types_roundtrip", fetch=3, bounds="A16 (align 16) and u8 payload, one event, symbolic time<=3"),
     ],
 )
+
+
+# --------------------------------------------------------------------------- C05 timers
+DES_PREPEND = CQ_PREPEND + [dict(file="des/src/lib.rs", text="#![cfg_attr(kani, feature(allocator_api))]")]
+M05 = "time::driver::verif_c05"
+PROPS["C05"] = dict(
+    crate="des",
+    mounts=CQ_MOUNTS + [dict(file="des/src/time/driver.rs", decl="mod verif_c05", harness="c05.rs"),
+                        dict(file="des/src/time/sleep.rs", decl="mod verif_c05_acc", harness="c05_sleep_acc.rs"),
+                        dict(file="des/src/time/interval.rs", decl="mod verif_c05_iacc", harness="c05_interval_acc.rs")],
+    prepend=DES_PREPEND,
+    functions=["des::time::driver::TimerQueue::{new,add,next,bump}", "TimerSlot::{new,add,remove,wake_all}", "TimerSlotEntryHandle::{drop,resolve,reset}", "Driver::{new,set,with_current}",
+               "des::time::Sleep::{new,poll,reset,reset_inner,deadline}", "des::time::Timeout::poll / timeout_at", "des::time::Interval::{poll_tick}, interval_at, MissedTickBehavior::next_timeout"],
+    level_text="Bounded model checking at step level: each operation of the per-module timer queue and each poll of Sleep/Timeout/Interval is executed once from a directly constructed valid state with symbolic deadlines, liveness flags and current time; the oracle states the property for that step (next() = earliest LIVE deadline; bump wakes exactly the due slots, each live timer exactly once; add/reset keep the queue strictly sorted with the timer registered exactly once at its deadline; a dropped timer is unregistered; Sleep completes iff deadline <= now and registers exactly once, also after reset; Timeout prefers the inner result; Interval ticks follow the period and the missed-tick formulas). Composition of steps over whole runs (and the tokio task wake path) is argued from these steps, not solver-checked.",
+    claim="States are built through the private constructors of the queue (child module), empty slots are part of the valid states because TimerSlotEntryHandle::drop and Sleep::reset create them.",
+    assumptions=["Arc::drop_slow -> no-op (TimerSlot<->TimerQueue cycle; destruction not claimed)", "VecDeque::{insert,remove} -> element-swap models (std)", "<= 3 slots, deadlines <= 8 ns, counting RawWaker instead of a tokio task waker",
+                 "Driver::{set,unset,with_current}: thread_local! storage replaced by a static with identical bodies (kani-compiler ICE on TLS destructors); driver installed directly (no ModuleRef::activate)"],
+    outside=["tokio task wake path and LocalSet polling (C06)", "more than 3 slots", "ModuleRef::activate/deactivate glue (needs ModuleContext; see C09 harnesses)", "whole-run composition of the steps"],
+    harnesses=[
+        H(M05, "c05_next_earliest_live", unwindset=[REALLOC], bounds="3 slots, strictly increasing symbolic deadlines<=7ns, symbolic liveness each"),
+        H(M05, "c05_bump_exactly_due", unwindset=[REALLOC], bounds="2 slots (front one live or emptied), symbolic deadlines, symbolic now<=7ns"),
+        H(M05, "c05_add_sorted_once", unwindset=[REALLOC], bounds="2 slots + add at symbolic deadline 0..7 (before/equal/between/after)"),
+        H(M05, "c05_handle_drop_resolve_reset", unwindset=[REALLOC], bounds="1 slot + added timer; symbolic mode drop/resolve/reset(new deadline 1..7)"),
+        H(M05, "c05_sleep_poll", unwindset=[REALLOC], bounds="Sleep with symbolic deadline<=6, now<=4; poll, re-poll, poll at symbolic later now<=7"),
+        H(M05, "c05_sleep_reset_reregisters", unwindset=[REALLOC], bounds="registered Sleep (deadline 2..5, now=1), reset to symbolic 0..7, poll"),
+        H(M05, "c05_timeout_poll", bounds="timeout_at(symbolic deadline<=6, inner ready flag symbolic), now<=4"),
+        H(M05, "c05_interval_tick_period", unwindset=[REALLOC], bounds="interval_at(start<=3, period 1..3), now<=4; two poll_tick calls"),
+        H(M05, "c05_missed_tick_formulas", bounds="scheduled<=1000ns, now in [scheduled,2000], period 1..1000ns; Burst/Delay/Skip"),
+    ],
+)
+
+
+# --------------------------------------------------------------------------- scratch probes (never registered)
+PROPS["P00"] = dict(crate="des-cqueue", mounts=CQ_MOUNTS + [dict(file="des-cqueue/src/stable/mod.rs", decl="mod verif_probe", harness="probe.rs")], prepend=CQ_PREPEND,
+                    level_text="probe", harnesses=[H("stable::verif_probe", "pr_vec_cond_push"), H("stable::verif_probe", "pr_vec_cond_push_stub", unwindset=[REALLOC])])
